@@ -428,6 +428,13 @@ impl FileSetBuilder {
             self.separator,
         );
 
+        #[cfg(emit_rs_emit_verif)]
+        if let Some(injected) = verif::take_injected() {
+            worker.fs = injected.fs;
+            worker.clock = injected.clock;
+            worker.rng = injected.rng;
+        }
+
         let (sender, receiver) = emit_batcher::bounded(10_000);
 
         let handle = emit_batcher::sync::spawn("emit_file_worker", receiver, move |batch| {
@@ -1609,6 +1616,40 @@ pub mod verif {
                 RollBy::Minute => super::RollBy::Minute,
             }
         }
+    }
+
+    /**
+    The filesystem, clock, and rng the next [`FileSetBuilder::spawn`] on this thread will hand to its worker.
+    */
+    pub(super) struct Injected {
+        pub(super) fs: Box<dyn super::Filesystem + Send + Sync>,
+        pub(super) clock: Box<dyn ErasedClock + Send + Sync>,
+        pub(super) rng: Box<dyn ErasedRng + Send + Sync>,
+    }
+
+    thread_local! {
+        static INJECTED: std::cell::RefCell<Option<Injected>> = std::cell::RefCell::new(None);
+    }
+
+    /**
+    Make the next [`FileSetBuilder::spawn`] called on this thread run its real worker, channel, and background thread over the given filesystem, clock, and rng instead of the system ones.
+    */
+    pub fn inject_next_spawn(
+        fs: impl Filesystem + Send + Sync + 'static,
+        clock: impl Clock + Send + Sync + 'static,
+        rng: impl Rng + Send + Sync + 'static,
+    ) {
+        INJECTED.with(|injected| {
+            *injected.borrow_mut() = Some(Injected {
+                fs: Box::new(FilesystemAdapter(fs)),
+                clock: Box::new(clock),
+                rng: Box::new(rng),
+            })
+        });
+    }
+
+    pub(super) fn take_injected() -> Option<Injected> {
+        INJECTED.with(|injected| injected.borrow_mut().take())
     }
 
     /**
